@@ -239,6 +239,8 @@ def gate_of(enc, pname, i):
         if a[0] == "release":
             return "lock.release:" + a[1][1]
         if a[0] == "method":
+            if a[2] in ("acquire", "release") and a[1][0] == "objvar" and a[1][1] in getattr(enc, "lock_names", ()):
+                return f"lock.{a[2]}:" + a[1][1]  # explicit lock.acquire() / lock.release()
             if a[2] in ("get", "put", "task_done") or (a[2] == "join" and a[1] == ("objvar", "queue")):
                 return "q." + a[2]
             if a[2] == "Thread":
